@@ -129,7 +129,12 @@ func cmdCheck(args []string) int {
 			if *dump {
 				dumpQuery(filepath.Join(outDir, "smt"), j.ob.Name, j.n, text)
 			}
-			r := solve(text, timeout, thorough)
+			to := timeout
+			if j.ob.Cover {
+				// reachability: only `unsat` matters (vacuity); do not wait for a model
+				to = 3 * time.Second
+			}
+			r := solve(text, to, thorough && !j.ob.Cover)
 			j.q.Result, j.q.Solver, j.q.Ms, j.q.Model, j.q.SMT = r.result, r.solver, r.ms, r.model, text
 			if os.Getenv("GOCV_DEBUG") != "" {
 				fmt.Fprintf(os.Stderr, "query %s.%d: %s by %s in %dms all=%v\n", j.ob.Name, j.n, r.result, r.solver, r.ms, r.all)
@@ -263,6 +268,21 @@ func cmdCheck(args []string) int {
 			report(r, r.Name, "new obligation is "+r.Status)
 		}
 	}
+	// bounded stand-ins (labelled bounded, never counted as proved)
+	bounded := runBounded(*prop, *tier, *repo, *verif)
+	for _, b := range bounded {
+		if b.failed {
+			name := *prop + "/bounded:" + b.Name
+			if kf := isKnown(name); kf != nil {
+				knownLines = append(knownLines, fmt.Sprintf("KNOWN-FINDING: property=%s %s [%s]", *prop, kf.What, name))
+				continue
+			}
+			os.MkdirAll(replayDir, 0o755)
+			p := filepath.Join(replayDir, fileSafe(name)+".txt")
+			os.WriteFile(p, []byte(fmt.Sprintf("property: %s\nfailed bounded check: %s\nbound: %s\ncommand: %s\n%s\n", *prop, b.Name, b.Bound, b.Cmd, trunc(b.output, 20000))), 0o644)
+			viols = append(viols, violation{name, "bounded stand-in found a failing input", p, false})
+		}
+	}
 	// evidence
 	nDis, nObl := 0, 0
 	var undecided []string
@@ -312,6 +332,7 @@ func cmdCheck(args []string) int {
 			"undecided_not_claimed":    undecided,
 			"incomplete_functions":     incompleteNotes,
 			"known_findings":           knownLines,
+			"bounded":                  bounded,
 			"samples":                  samples,
 			"solver_ms_total":          solverMs,
 			"load_s":                   loadS,
